@@ -595,7 +595,11 @@ func (g *Gen) trCall(e *CCall, env *Env) (string, VType) {
 		lab := cexprString(e.Args[0])
 		rec, ok := env.labels[lab]
 		if !ok {
-			// label of a call that does not exist on any path: the expression is irrelevant
+			if g.labelExists(lab) {
+				// a call that exists in the function but has not been passed on the way here: at(l, e) is
+				// unspecified on such a path (clauses guard it with reached(l)); it is read in the current state
+				return g.tr(e.Args[1], env)
+			}
 			trFail("unknown call label %s", lab)
 		}
 		ne := *env
